@@ -119,7 +119,8 @@ func (c *FnCtx) cellHeap(elem types.Type) (string, string) {
 func (c *FnCtx) mapHeaps(mt types.Type) (dom, val, ln string, ks, vs string) {
 	m := mt.Underlying().(*types.Map)
 	ks, vs = c.sortOf(m.Key()), c.sortOf(m.Elem())
-	tag := sortTag(ks) + "." + sortTag(vs)
+	// one heap per Go map type: maps of different types never alias
+	tag := mapTypeTag(m)
 	c.heapSorts["MD."+tag] = "(Array Int (Array " + ks + " Bool))"
 	c.heapSorts["MV."+tag] = "(Array Int (Array " + ks + " " + vs + "))"
 	c.heapSorts["ML."+tag] = "(Array Int Int)"
@@ -134,11 +135,23 @@ func (c *FnCtx) heapGet(st *State, name, sort string) string {
 	}
 	c.heapSorts[name] = sort
 	sym := fmt.Sprintf("%s@%d", name, st.epoch)
-	c.smt.declare(sym, sort)
+	if _, seen := c.smt.declared[sym]; !seen {
+		c.smt.declare(sym, sort)
+		c.heapSymbolAxioms(name, sort, sym)
+	}
 	if st.epoch == 0 {
 		c.initialHeaps[name] = sym
 	}
 	return sym
+}
+
+// heapSymbolAxioms: facts true of every heap state, stated for each unconstrained heap symbol:
+// the nil map has no keys.
+func (c *FnCtx) heapSymbolAxioms(name, sort, sym string) {
+	if strings.HasPrefix(name, "MD.") {
+		ks := strings.TrimSuffix(strings.TrimPrefix(sort, "(Array Int (Array "), " Bool))")
+		c.smt.assume(fmt.Sprintf("(forall ((k %s)) (! (not (select (select %s 0) k)) :pattern ((select (select %s 0) k))))", ks, sym, sym), "the nil map has no keys")
+	}
 }
 
 func (c *FnCtx) initialHeapSym(name, sort string) string {
@@ -167,7 +180,9 @@ func (c *FnCtx) havocHeap(st *State, name string) {
 	if !ok {
 		return
 	}
-	st.heaps[name] = c.smt.declareFresh(name, sort)
+	sym := c.smt.declareFresh(name, sort)
+	c.heapSymbolAxioms(name, sort, sym)
+	st.heaps[name] = sym
 }
 
 // merge -----------------------------------------------------------------------------------------
@@ -581,4 +596,10 @@ func describeAddr(a *Addr) string {
 		fmt.Fprintf(&b, "global %s", a.Global.Name())
 	}
 	return b.String()
+}
+
+func mapTypeTag(m *types.Map) string {
+	s := types.TypeString(m, func(p *types.Package) string { return p.Name() })
+	s = strings.NewReplacer("map[", "M_", "]", "_", "[", "_", "*", "p", "{", "", "}", "", " ", "").Replace(s)
+	return sanitize(s)
 }
